@@ -45,7 +45,9 @@ impl OperationControl for Atom {
         let mut builder = CodePointInversionListBuilder::new();
         if case_blind {
             // create a character class that has all case variants of the first character
+            // (the closure does not include the character itself)
             let cm = CaseMapCloser::new();
+            builder.add_char(self.atom[0]);
             cm.add_case_closure_to(self.atom[0], &mut builder);
         } else {
             builder.add_char(self.atom[0]);
